@@ -19,7 +19,9 @@ Structural variants (full path, minSdk absent / 23 / 24): unrelated certificate 
 certificate A while signed with key B (same and different key type, A in / not in the bag); two SignerInfos (bad,good /
 good,bad / bad-signature,good); signed attributes whose messageDigest is right but the signature is over the .SF; signed
 attributes with the digest of other content; signed attributes whose messageDigest has the wrong LENGTH (empty, 1 / n-1 byte prefix
-of the correct and of a wrong digest, correct digest + 1 byte; signature valid over them; genuine and altered .SF); declared digest algorithm different from the one signed with; a second,
+of the correct and of a wrong digest, correct digest + 1 byte; signature valid over them; genuine and altered .SF); signedAttrs stored
+with a non-minimal BER length (A0 81 nn / A0 82 00 nn) signed over the DER re-encoding (judged: no certificate) and over the stored
+bytes (observed only); declared digest algorithm different from the one signed with; a second,
 corrupted signature block next to a valid one.
 History: every judged case is an explicit history in ONE process - the genuine artefact goes through get_certificate_der
 first (same path), then the substitution values of one fault site in order (structural variants: variant, the genuine
@@ -38,13 +40,16 @@ RULE = ("24 v1-signed artefacts (3 key types x 2 digests x signed attributes y/n
         ".SF, the signature value, the signed attributes, issuer+serial; quick: .SF x 255 values on 3 artefacts (one per key type) and "
         "the 8-value alphabet {^01,^02,^40,^80,00,7f,ff,~b} on every other site of all artefacts; thorough: .SF and signature x 255 on "
         "all artefacts; every mutant differs from the valid artefact in exactly one byte (distinct by construction); + one value per "
-        "site through the full zip path; + 11 (25 with signed attributes) structural variants x minSdk {absent, 23, 24} per "
+        "site through the full zip path; + 11 (29 with signed attributes) structural variants x minSdk {absent, 23, 24} per "
         "key/digest/attribute combination")
 ASSUMPTIONS = ["gen/apkgen builds the PKCS#7 SignedData with asn1crypto and signs with `cryptography` (the same libraries androguard "
                "parses/verifies with; the container, the JAR files and the fault injection are independent)",
                "the in-memory get_file seam is faithful: bound to the full zip path by one value per fault site (disagreement is a "
                "harness error)",
                "for files with two SignerInfos only 'no non-verifying certificate' is judged",
+               "'verifies over the signed attributes' = over the STORED attribute bytes with the tag octet set to 0x31, as Android's "
+               "V1SchemeVerifier (which androguard ports) hashes them; signedAttrs with a non-minimal BER length whose signature is only "
+               "valid over the DER re-encoding must yield no certificate; the opposite case (valid over the stored bytes) is observed, not judged",
                "key/digest combinations refused by the installed `cryptography` at signing time are dropped (listed in space())"]
 MANIFEST = {
     "engine": "E4-faults",
@@ -368,6 +373,16 @@ def variants(kind, alg, attrs):
         # messageDigest attribute of the wrong LENGTH, signature validly computed over those attributes: only the digest
         # comparison can reject (RFC 5652 11.2: the attribute must EQUAL the computed digest).  Each against the genuine .SF and
         # against a .SF with one byte altered (name suffix /altered-sf).
+        # signedAttrs stored with a legal NON-minimal BER length.  RFC 5652 5.4 signs the DER re-encoding, but Android's
+        # V1SchemeVerifier ("Android does not re-encode except for changing the first byte ... We do the same") and androguard, which
+        # ports it (get_certificate_der docstring), hash the STORED bytes with the tag octet replaced.  Judged: a signature that is
+        # only valid over the re-normalised DER form (sig-over-der) does not verify the stored attributes as the platform hashes them
+        # -> no certificate.  NOT judged (observed, counted): sig-over-stored, which Android accepts and an RFC-strict verifier rejects.
+        for form in ("81", "8200"):
+            v["signed-attrs-ber-length:len-%s/sig-over-der" % form] = (
+                (lambda sf, form=form: G.pkcs7([G.signer_info_ber_attrs(sf, kind, alg, form, "der")], [kind], [alg])), ("nocert",))
+            v["signed-attrs-ber-length:len-%s/sig-over-stored" % form] = (
+                (lambda sf, form=form: G.pkcs7([G.signer_info_ber_attrs(sf, kind, alg, form, "stored")], [kind], [alg])), ("observe",))
         import hashlib
         for md, make in MD_KINDS.items():
             for alt in ("", "/altered-sf"):
@@ -440,6 +455,8 @@ def judge_struct(kind, alg, attrs, minsdk, name):
         if o != ("cert", want) or v1 != [want]:
             out.append((key, "%s: expected exactly the signer's certificate, get_certificate_der -> %s, get_certificates_v1 -> %s"
                         % (tag, who(o[1]) if o[0] == "cert" else o[0], [who(c) for c in v1] if isinstance(v1, list) else v1)))
+    elif exp[0] == "observe":
+        pass
     elif exp[0] == "nocert":
         if certs:
             out.append((key, "%s: %s was reported for a signature that does not verify" % (tag, who(certs[0]))))
@@ -482,8 +499,8 @@ def space(ctx):
             "example_sizes(rsa/sha256/attrs)": {"sf": len(art.sf), "pkcs7": len(art.p7), "signature": f["signature"][1],
                                                 "signed-attrs": f["signed-attrs"][1], "sid": f["sid"][1]},
             "full_path_binding": "every fault site of every artefact x value ^01 through zipfile -> APK(raw)",
-            "structural_variants_built": "11 per (key, digest) without signed attributes, 25 with (13 + 6 wrong-length messageDigest "
-                                         "kinds x {genuine, altered .SF}), x minSdk %r" % (STRUCT_MINSDK,),
+            "structural_variants_built": "11 per (key, digest) without signed attributes, 29 with (13 + 6 wrong-length messageDigest "
+                                         "kinds x {genuine, altered .SF} + 4 BER-length signedAttrs), x minSdk %r" % (STRUCT_MINSDK,),
             "messageDigest_kinds": sorted(MD_KINDS),
             "structural_variants": sorted(variants("rsa", "sha256", True)) + ["second-block-corrupt"],
             "structural_minsdk": STRUCT_MINSDK, "cryptography_deterministic": {"rsa": True, "ec": "RFC 6979 if available", "dsa": False},
@@ -500,6 +517,8 @@ def run_shard(ctx, shard):
                 acc.case(nontrivial=("struct", kind, alg, attrs, minsdk, name), outcome=("struct", name, cls))
                 acc.count("structural_variants")
                 acc.count("structural_variants_minsdk_%s" % minsdk)
+                if name.startswith("signed-attrs-ber-length") and name.endswith("sig-over-stored"):
+                    acc.count("observed:%s:%s" % (name, cls))
                 if name.startswith("two-si"):
                     acc.count("observed:%s:minsdk%s:%s" % (name, ">=24" if (minsdk or 0) >= 24 else "<24", cls))
                 for key, msg in res:
@@ -596,7 +615,7 @@ def finalize(ctx, acc):
             acc.harness_error("no .SF site was enumerated with the 255-value alphabet")
         if ctx.thorough and (acc.extra.get("sites_sf_x8") or acc.extra.get("sites_signature_x8")):
             acc.harness_error("thorough tier must use the 255-value alphabet on every .SF and signature byte")
-    nstruct = sum((25 if at else 11) for k, a, at, ms in configs() if ms is None) * len(STRUCT_MINSDK)
+    nstruct = sum((29 if at else 11) for k, a, at, ms in configs() if ms is None) * len(STRUCT_MINSDK)
     if acc.extra.get("structural_variants") != nstruct:
         acc.harness_error("structural variants built: %r, stated: %d" % (acc.extra.get("structural_variants"), nstruct))
     for ms in STRUCT_MINSDK:
